@@ -242,9 +242,9 @@ impl Store {
 
     pub async fn wait_for_gc(&self) {
         let (tx, rx) = tokio::sync::oneshot::channel();
-        let _ = self.gc_tx.send(GCTask::Drain(tx));
         #[cfg(feature = "verif")]
         self.verif.gc_enqueued(crate::verif::GcKind::Drain);
+        let _ = self.gc_tx.send(GCTask::Drain(tx));
         let _ = rx.await;
     }
 
@@ -306,11 +306,11 @@ impl Store {
                 for frame in store.iter_frames(options.context_id, options.last_id.as_ref()) {
                     if let Some(TTL::Time(ttl)) = frame.ttl.as_ref() {
                         if is_expired(&frame.id, ttl) {
-                            let _ = gc_tx.send(GCTask::Remove(frame.id));
                             #[cfg(feature = "verif")]
                             store
                                 .verif
                                 .gc_enqueued(crate::verif::GcKind::Remove(&frame.id));
+                            let _ = gc_tx.send(GCTask::Remove(frame.id));
                             continue;
                         }
                     }
@@ -445,10 +445,10 @@ impl Store {
             .filter(move |frame| {
                 if let Some(TTL::Time(ttl)) = frame.ttl.as_ref() {
                     if is_expired(&frame.id, ttl) {
-                        let _ = self.gc_tx.send(GCTask::Remove(frame.id));
                         #[cfg(feature = "verif")]
                         self.verif
                             .gc_enqueued(crate::verif::GcKind::Remove(&frame.id));
+                        let _ = self.gc_tx.send(GCTask::Remove(frame.id));
                         return false;
                     }
                 }
@@ -586,15 +586,15 @@ impl Store {
 
             // If this is a Head TTL, schedule a gc task
             if let Some(TTL::Head(n)) = frame.ttl {
-                let _ = self.gc_tx.send(GCTask::CheckHeadTTL {
-                    context_id: frame.context_id,
-                    topic: frame.topic.clone(),
-                    keep: n,
-                });
                 #[cfg(feature = "verif")]
                 self.verif.gc_enqueued(crate::verif::GcKind::CheckHead {
                     context_id: &frame.context_id,
                     topic: &frame.topic,
+                    keep: n,
+                });
+                let _ = self.gc_tx.send(GCTask::CheckHeadTTL {
+                    context_id: frame.context_id,
+                    topic: frame.topic.clone(),
                     keep: n,
                 });
             }
